@@ -264,6 +264,8 @@ def install(E):
                 if r is None:
                     parts = [(k, v, n) for (k, v, n) in x.parts if k + n <= w2 // 8]
                     if parts and sum(p[2] for p in parts) == w2 // 8: r = Bundle(parts, w2 // 8)
+                    elif not parts and not any(k < (w2 + 7) // 8 for (k, v, n) in x.parts): r = UNDEF   # only padding bytes selected
+                    elif parts: r = Bundle(parts, (w2 + 7) // 8)
                     else: raise EngineError('trunc of bundle %r to i%d' % (x, w2))
             elif isinstance(x, Ptr): r = x
             elif isinstance(x, int): r = sgn(x, w2) if w2 > 1 else x & 1
